@@ -30,8 +30,8 @@ STARVE_EX = {"silent", "claim", "drop"}                 # the exchange can never
 ABORT_EX = {"swap", "xval", "xvalall", "othermsg"}      # every honest peer's aggregation refuses
 STARVE_NS = {"silent", "otherkey", "otherhash", "claim"}
 
-QUICK_MC = ("NodeSigsMC_quick.cfg", 600)
-THOROUGH_MC = ("NodeSigsMC.cfg", 1700)
+QUICK_MC = [("NodeSigsMC_quick.cfg", 600)]
+THOROUGH_MC = [("NodeSigsMC.cfg", 1700), ("NodeSigsMC_combine3.cfg", 900)]
 CONTROLS = [("NodeSigsMC_ctl_nogate.cfg", "I2_SenderBound", "verifyPeerShareIdx without the index comparison: a forged claim of an honest peer's share index is admitted"),
             ("NodeSigsMC_ctl_nogate_blame.cfg", "I4_HonestNotBlamed", "... and the honest peer is blamed by the aggregation"),
             ("NodeSigsMC_ctl_noverify.cfg", "I1_LockSound", "--no-verify + 0xdeadbeef marker: a lock with a short, shifted node signature list is written"),
@@ -239,15 +239,16 @@ def mutators():
 # ----------------------------------------------------------------------------------------------------------------------
 def design_check(o, tier):
     pid = o.pid
-    main_cfg, to = THOROUGH_MC if tier == "thorough" else QUICK_MC
-    jobs = [(cfg, vlib.scratch(pid, FAMILY)) for cfg, _, _ in CONTROLS]
-    main_dir = vlib.scratch(pid, FAMILY)
+    mains = THOROUGH_MC if tier == "thorough" else QUICK_MC
+    jobs = [(cfg, vlib.scratch(pid, FAMILY)) for cfg, _, _ in CONTROLS]          # (vlib.scratch is not thread safe)
+    main_dirs = [vlib.scratch(pid, FAMILY) for _ in mains]
     with ThreadPoolExecutor(max_workers=len(jobs)) as ex:
         futs = [ex.submit(vlib.tlc, pid, FAMILY, "NodeSigsMC", cfg, workers=2, timeout=600, sdir=d) for cfg, d in jobs]
-        r = vlib.tlc(pid, FAMILY, "NodeSigsMC", main_cfg, timeout=to, sdir=main_dir, workers=max(4, vlib.NCPU // 2))
-        vlib.require_mc_ok(r, main_cfg)
-        o.add_mc(main_cfg[:-4], r)
-        log("[%s] %s: %s" % (pid, main_cfg, r.summary()))
+        for (main_cfg, to), main_dir in zip(mains, main_dirs):
+            r = vlib.tlc(pid, FAMILY, "NodeSigsMC", main_cfg, timeout=to, sdir=main_dir, workers=max(4, vlib.NCPU // 2))
+            vlib.require_mc_ok(r, main_cfg)
+            o.add_mc(main_cfg[:-4], r)
+            log("[%s] %s: %s" % (pid, main_cfg, r.summary()))
         for (cfg, inv, what), fu in zip(CONTROLS, futs):
             c = fu.result()
             if c.violation != inv:
